@@ -52,6 +52,29 @@ def sites() -> dict[str, list[tuple[str, str, str]]]:
     return {"enumSites": enum_sites, "patternSites": pattern_sites}
 
 
+def docstring_replaces() -> list[tuple[str, str]]:
+    """The chain of `.replace(old, new)` calls that make up `model/base.py escape_docstring`, in the
+    order they are applied (innermost call first). Anything else in that function → empty list (the
+    Lean side then no longer recognises the function)."""
+    tree = ast.parse((SRC / "model" / "base.py").read_text())
+    for node in ast.walk(tree):
+        if isinstance(node, ast.FunctionDef) and node.name == "escape_docstring":
+            rets = [n for n in ast.walk(node) if isinstance(n, ast.Return)]
+            if len(rets) != 1:
+                return []
+            chain = []
+            cur = rets[0].value
+            while isinstance(cur, ast.Call) and isinstance(cur.func, ast.Attribute) and cur.func.attr == "replace":
+                if len(cur.args) != 2 or not all(isinstance(a, ast.Constant) and isinstance(a.value, str) for a in cur.args):
+                    return []
+                chain.append((cur.args[0].value, cur.args[1].value))
+                cur = cur.func.value
+            if not (isinstance(cur, ast.Name) and cur.id == node.args.args[0].arg):
+                return []
+            return list(reversed(chain))
+    return []
+
+
 def generate() -> str:
     out = ["namespace Dcg.Gen.EscTables", ""]
     for name, tab in tables().items():
@@ -63,5 +86,10 @@ def generate() -> str:
             f"/-- (file, literal text before, literal text after) of each f-string embedding the escaped text -/\n"
             f"def {name} : List (String × String × String) :=\n  [{rows}]\n"
         )
+    rows = ",\n   ".join(f"({lean_str(a)}, {lean_str(b)})" for a, b in docstring_replaces())
+    out.append(
+        "/-- `escape_docstring`: the (old, new) pairs of its chain of str.replace calls, in application order -/\n"
+        f"def docstringReplaces : List (List Char × List Char) :=\n  [{rows}]\n"
+    )
     out.append("end Dcg.Gen.EscTables")
     return "\n".join(out) + "\n"
